@@ -280,7 +280,12 @@ nodesLoop:
 			case reflect.Chan:
 				lhs = []ast.Expression{node.Ident}
 			}
-			assignment := ast.NewAssignment(aPos, lhs, ast.AssignmentDeclaration, []ast.Expression{expr})
+			typ := ast.AssignmentDeclaration
+			if node.Ident.Name == "_" {
+				// No variable is declared.
+				typ = ast.AssignmentSimple
+			}
+			assignment := ast.NewAssignment(aPos, lhs, typ, []ast.Expression{expr})
 			assignment.End = node.Expr.Pos().End
 			nodes[i] = ast.NewForRange(node.Pos(), assignment, node.Body, node.Else)
 			continue
@@ -330,6 +335,9 @@ nodesLoop:
 				}
 				ti1 := &typeInfo{Type: typ1, Properties: propertyAddressable}
 				declaration := node.Assignment.Type == ast.AssignmentDeclaration
+				if declaration && isBlankIdentifier(lhs[0]) && (len(lhs) == 1 || isBlankIdentifier(lhs[1])) {
+					panic(tc.errorf(node.Assignment, "no new variables on left side of :="))
+				}
 				indexPh := ast.NewPlaceholder()
 				tc.compilation.typeInfos[indexPh] = ti1
 				tc.obsoleteForRangeAssign(node.Assignment, lhs[0], indexPh, nil, declaration, false)
